@@ -5,6 +5,7 @@ import ast
 from engine.astutil import (U, calls, kwargs, single_defs, inline, strip_copy, walk_own, call_name, attr_tail, enclosing_map,
                             same, stmt_text)
 from engine.repo import AnalysisError
+from engine.norm import Norm, parse_expr
 
 SCREEN_Q = "batchie.data.Screen"
 ROW_KW = ["treatment_names", "treatment_doses", "sample_names", "plate_names", "observations", "observation_mask"]
@@ -892,3 +893,41 @@ def reaching_env(fnode, node):
                     if isinstance(x, ast.Name) and isinstance(x.ctx, (ast.Store, ast.Del)):
                         env.pop(x.id, None)
     return env
+
+
+# ---------------------------------------------------------------- the small derived attributes every rule takes for granted
+DERIVED_ATTRS = {
+    # name: accepted definitions (normal forms are compared, so `x.all()` / `np.all(x)`, `len(x)` / `x.shape[0]` for 1-d x coincide where Norm knows)
+    "is_observed": ("np.all(self.observation_mask)", "self.observation_mask.all()", "bool(np.all(self.observation_mask))", "bool(self.observation_mask.all())"),
+    "size": ("self.treatment_ids.shape[0]", "len(self.treatment_ids)", "self.observation_mask.shape[0]", "len(self.observation_mask)", "self.sample_ids.shape[0]", "len(self.sample_ids)"),
+    "unique_plate_ids": ("np.unique(self.plate_ids)",),
+    "unique_sample_ids": ("np.unique(self.sample_ids)",),
+    "unique_treatments": ("np.setdiff1d(np.unique(self.treatment_ids), [CONTROL_SENTINEL_VALUE])", "np.setdiff1d(self.treatment_ids, [CONTROL_SENTINEL_VALUE])"),
+    "n_plates": ("self.unique_plate_ids.shape[0]", "len(self.unique_plate_ids)", "self.unique_plate_ids.size", "np.unique(self.plate_ids).shape[0]", "len(np.unique(self.plate_ids))"),
+    "n_unique_samples": ("len(self.unique_sample_ids)", "self.unique_sample_ids.shape[0]", "self.unique_sample_ids.size", "len(np.unique(self.sample_ids))"),
+    "n_unique_treatments": ("len(self.unique_treatments)", "self.unique_treatments.shape[0]", "self.unique_treatments.size"),
+    "treatment_arity": ("self.treatment_ids.shape[1]",),
+    "sample_space_size": ("len(self.sample_mapping[0])", "self.sample_mapping[0].shape[0]"),
+    "treatment_space_size": ("len(self.treatment_mapping[0])", "self.treatment_mapping[0].shape[0]"),
+}
+
+
+def derived_attributes(ctx, rule, names):
+    """ScreenBase's derived attributes (`is_observed`, `size`, `unique_plate_ids`, ..) are what the anchored code means when it says
+    `plate.is_observed` or `screen.n_plates`.  Each named attribute must be defined, in ScreenBase and in every override, by one of
+    its tabled definitions (compared as normal forms, locals read through); another definition is reported, an unreadable one is
+    undecided."""
+    N = Norm(strict=False)
+    R = ctx.R
+    for nm in names:
+        wants = {N.key(parse_expr(t)) for t in DERIVED_ATTRS[nm]}
+        owners = [q for q, f in R.funcs.items() if f.name == nm and f.class_q in ("batchie.data.ScreenBase", "batchie.data.Screen", "batchie.data.ScreenSubset", "batchie.data.Plate")]
+        ctx.need(owners, f"derived attribute `{nm}` is not defined on the screen classes")
+        for q in sorted(owners):
+            f = ctx.fn(q)
+            rs = [r for r in walk_own(f.node) if isinstance(r, ast.Return)]
+            if len(rs) != 1 or rs[0].value is None:
+                raise AnalysisError(f"{f.site()}: `{nm}` is not a single returned expression")
+            e = inline(rs[0].value, single_defs(f.node))
+            ctx.check(rule, f"{f.site()}::definition", N.key(e) in wants, f"{nm} == {DERIVED_ATTRS[nm][0]}",
+                      f"`{nm}` is defined as `{U(e)[:100]}`, not as `{DERIVED_ATTRS[nm][0]}`: every caller that relies on its documented meaning is affected")
